@@ -125,30 +125,33 @@ __CPROVER_ensures(g_ctx.code == RLC_ERR || (vc_mag(k) != 0 ==> (*len >= 1 && naf
 ;
 #include "vc_spec_pop.h"
 
-/* ---- regular (signed, fixed-length) recoding: sum_{i<=l} naf[i] 2^(i(w-1)) == k, l = ceil(n/(w-1)) ------------------------ */
+/* ---- regular (signed, fixed-length) recoding (C08/C09): frame, length and error behaviour ---------------------------------
+   l = ceil(n/(w-1)) digits plus a final one are produced; the scratch copy of k has d = ceil(l(w-1)/RLC_DIG) digits.  The documented
+   interface does not restrict k to n bits, so the contract does not either: a k that does not fit the scratch (k->used > d) must be
+   REPORTED, not copied past it.  (An earlier version of this contract assumed k < 2^n as a precondition - taken from what the callers
+   "obviously" pass, not from the interface - and thereby hid finding F11, DESIGN 9.)  The digit VALUES are not claimed (the value
+   contract exhausted memory, DESIGN 9 "withdrawn"). */
 #ifndef VC_REG_MAXN
-#define VC_REG_MAXN 14
+#define VC_REG_MAXN 24
 #endif
+#define VC_REG_L(n, w) (((n) + (w) - 2) / ((w) - 1))
+#define VC_REG_D(n, w) ((VC_REG_L(n, w) * ((w) - 1) + RLC_DIG - 1) / RLC_DIG)
 extern const void *__CPROVER_alloca_object;
 #include "vc_spec_push.h"
-static inline vc_swide vc_reg_val(const int8_t *naf, size_t cnt, size_t w) {
-	vc_swide v = 0;
-	for (size_t i = 0; i < VC_REG_MAXN + 2; i++) {
-		if (i < cnt) v += ((vc_swide)naf[i]) << (i * (w - 1));
-	}
-	return v;
-}
 void bn_rec_reg(int8_t *naf, size_t *len, const bn_t k, size_t n, size_t w)
 __CPROVER_requires(w >= 2 && w <= 8 && n >= 1 && n <= VC_REG_MAXN)
-__CPROVER_requires(VC_BN_FRESH(k) && VC_BN_NF(k) && (vc_mag(k) >> n) == 0)
+__CPROVER_requires(VC_BN_FRESH(k) && VC_BN_NF(k))
 __CPROVER_requires(__CPROVER_is_fresh(len, sizeof(size_t)) && *len <= VC_REG_MAXN + 4)
 __CPROVER_requires(__CPROVER_is_fresh(naf, *len))
-__CPROVER_requires(*len > (n + w - 2) / (w - 1) || g_may_throw)
+/* an error exit is admitted exactly when the buffer is too short or k does not fit */
+__CPROVER_requires((*len > VC_REG_L(n, w) && (size_t)k->used <= VC_REG_D(n, w)) || g_may_throw)
 VC_ASSIGNS(__CPROVER_alloca_object, __CPROVER_object_whole(naf), *len, g_ctx.code, g_ctx.last, g_ctx.error, g_ctx.number, g_thrown)
-__CPROVER_ensures(__CPROVER_old(*len) <= (n + w - 2) / (w - 1) ==> (g_ctx.code == RLC_ERR && *len == 0))
-__CPROVER_ensures(__CPROVER_old(*len) > (n + w - 2) / (w - 1) ==> (g_ctx.code == __CPROVER_old(g_ctx.code) && *len == (n + w - 2) / (w - 1) + 1 && \
-	vc_reg_val(naf, *len, w) == (vc_swide)vc_mag(k)))
-__CPROVER_ensures((__CPROVER_old(*len) > (n + w - 2) / (w - 1) && gk + 1 < *len) ==> (naf[gk] >= -(1 << (w - 1)) && naf[gk] < (1 << (w - 1)) && \
-	(((vc_mag(k) & 1) == 1) ==> ((naf[gk] & 1) == 1))))
+/* buffer too short: reported */
+__CPROVER_ensures(__CPROVER_old(*len) <= VC_REG_L(n, w) ==> (g_ctx.code == RLC_ERR && *len == 0))
+/* k fits the scratch: success, exactly l + 1 digits */
+__CPROVER_ensures((__CPROVER_old(*len) > VC_REG_L(n, w) && (size_t)k->used <= VC_REG_D(n, w)) ==> (g_ctx.code == __CPROVER_old(g_ctx.code) && *len == VC_REG_L(n, w) + 1))
+/* k does not fit: reported, nothing recoded */
+__CPROVER_ensures((__CPROVER_old(*len) > VC_REG_L(n, w) && (size_t)k->used > VC_REG_D(n, w)) ==> (g_ctx.code == RLC_ERR && *len == 0))
+/* k unchanged: by the frame (k is not in the assigns clause) */
 ;
 #include "vc_spec_pop.h"
